@@ -85,7 +85,7 @@ def _is_ip_address(addr: str) -> bool:
 def _is_subnet_address(hostname: str) -> bool:
     try:
         addr, netmask = hostname.split("/")
-        return _is_ip_address(addr) and 0 <= int(netmask) < 32
+        return _is_ip_address(addr) and 0 <= int(netmask) <= 32
     except ValueError:
         return False
 
